@@ -25,4 +25,6 @@ EXTRAS = [
     lambda rep, fb, tier: __import__("vf.rules.lints", fromlist=["x"]).rule_own_metadata(rep, fb),
     lambda rep, fb, tier: __import__("vf.rules.lints", fromlist=["x"]).rule_ctor_roles(rep, fb),
     lambda rep, fb, tier: __import__("vf.rules.lints", fromlist=["x"]).rule_call_roles(rep, fb),
+    lambda rep, fb, tier: __import__("vf.rules.lints2", fromlist=["x"]).rule_failure_message_condition(rep, fb),
+    lambda rep, fb, tier: __import__("vf.rules.lints2", fromlist=["x"]).rule_missing_predicate(rep, fb),
 ]
